@@ -69,6 +69,19 @@ Theorem C03_one_flag_per_alternative : forall n outrank, length (kernel n outran
 Proof. exact kernel_length. Qed.
 Print Assumptions C03_one_flag_per_alternative.
 
+(* scores listed in strictly increasing order are ranked 1, 2, ..., n - and only strictly: two equal neighbours must
+   share a rank (an "already in rank order" shortcut has to test > , not >=) *)
+From Coq Require Import Sorting.Sorted.
+Theorem C03_strictly_increasing_scores_rank_1_to_n : forall xs,
+  StronglySorted Qlt xs -> rank_values false xs = seq 1 (length xs).
+Proof. exact dense_rank_Q_of_strictly_increasing. Qed.
+Print Assumptions C03_strictly_increasing_scores_rank_1_to_n.
+
+Theorem C03_non_decreasing_is_not_enough :
+  exists xs, StronglySorted Qle xs /\ rank_values false xs <> seq 1 (length xs).
+Proof. exact non_decreasing_is_not_enough. Qed.
+Print Assumptions C03_non_decreasing_is_not_enough.
+
 Example C03_example :
   rank_values true [3#2; 1#2; 6#4; 2#1]%Q = [2; 3; 2; 1]%nat /\
   rank_values false [3#2; 1#2; 6#4; 2#1]%Q = [2; 1; 2; 3]%nat /\
